@@ -4,8 +4,11 @@
 
   The intermediate object is a Python dict keyed by `int` (array index) or `str` (member name), in
   insertion order, whose values are again such dicts or *leaves* (copies of selected values).
-  Navigating into a leaf (an earlier, wider selection) is the overlapping-selections case: the
-  model answers `none` there ("outside the model"); the property's theorems assume disjoint selections.
+  Navigating into a leaf (an earlier, wider selection) is the overlapping-selections case: `patch`
+  (the disjoint fragment, kept for the theorems that assume disjoint selections) answers `none` there;
+  `patchO` is the whole of `_patch_obj`: it walks on into the copied JSON value (`setJ`) and assigns
+  there. `select` uses `patchO`; `patch_extends` (Lemmas) shows `patchO` agrees with `patch` wherever
+  `patch` is defined.
 -/
 import JP.Pointer
 namespace JP
@@ -35,6 +38,38 @@ def patch : List Part → List (Part × T) → J → Option (List (Part × T))
     | none => (patch (q :: rest) [] v).map (fun sub => setT kvs p (.node sub))
     | some (.node sub) => (patch (q :: rest) sub v).map (fun sub' => setT kvs p (.node sub'))
     | some (.leaf _) => none                            -- overlapping selections: outside the model
+
+/-- `_obj = _obj[part]` for every part but the last, then `_obj[parts[-1]] = value`, inside a *copied JSON
+    value* (a leaf written by an earlier, wider selection). Lists are indexed (no membership test, no `{}`
+    put in), dicts must already have the member: a missing member would make `_patch_obj` put an empty
+    intermediate dict into the copied value, which never happens for selections taken from one document
+    (`setJ_same`) and is outside the model (`none`), as are negative indices (normalized paths have none),
+    an index beyond the list (IndexError) and a part of the wrong kind (TypeError / KeyError). -/
+def setJ : J → List Part → J → Option J
+  | _, [], _ => none
+  | .obj kvs, [.key k], v => some (.obj (dictSet kvs k v))
+  | .arr xs, [.idx n], v => if 0 ≤ n ∧ n.toNat < xs.length then some (.arr (xs.set n.toNat v)) else none
+  | .obj kvs, .key k :: q :: rest, v =>
+    match dictGet kvs k with
+    | some c => (setJ c (q :: rest) v).map (fun c' => .obj (dictSet kvs k c'))
+    | none => none
+  | .arr xs, .idx n :: q :: rest, v =>
+    if 0 ≤ n then
+      match xs[n.toNat]? with
+      | some c => (setJ c (q :: rest) v).map (fun c' => .arr (xs.set n.toNat c'))
+      | none => none
+    else none
+  | _, _, _ => none
+
+/-- `_patch_obj(parts, obj, value)`, overlapping selections included -/
+def patchO : List Part → List (Part × T) → J → Option (List (Part × T))
+  | [], _, _ => none
+  | [p], kvs, v => some (setT kvs p (.leaf v))
+  | p :: q :: rest, kvs, v =>
+    match getT kvs p with
+    | none => (patchO (q :: rest) [] v).map (fun sub => setT kvs p (.node sub))
+    | some (.node sub) => (patchO (q :: rest) sub v).map (fun sub' => setT kvs p (.node sub'))
+    | some (.leaf w) => (setJ w (q :: rest) v).map (fun w' => setT kvs p (.leaf w'))
 
 /-- `_fix_sparse_arrays` on a JSON value (a selected leaf): rebuilds lists and dicts, changes nothing -/
 def fixJ : J → J
@@ -71,6 +106,10 @@ def patchAll : List (List Part × J) → List (Part × T) → Option (List (Part
   | [], kvs => some kvs
   | (ps, v) :: rest, kvs => (patch ps kvs v).bind (patchAll rest)
 
+def patchAllO : List (List Part × J) → List (Part × T) → Option (List (Part × T))
+  | [], kvs => some kvs
+  | (ps, v) :: rest, kvs => (patchO ps kvs v).bind (patchAllO rest)
+
 /-- Python truthiness of a projection result (`filter(bool, …)`) -/
 def truthyJ : J → Bool
   | .null => false
@@ -86,7 +125,7 @@ inductive Style where
   deriving DecidableEq, Repr
 
 /-- `Query._select(match, …)` given the selections (relative parts, value) found below the match:
-    `none` = no projection for this match; `some none` = outside the model (overlapping). -/
+    `none` = no projection for this match; `some none` = outside the model. -/
 def select (style : Style) (matchParts : List Part) (matchVal : J) (sels : List (List Part × J)) :
     Option (Option J) :=
   if !matchVal.isContainer then none
@@ -96,11 +135,11 @@ def select (style : Style) (matchParts : List Part) (matchVal : J) (sels : List 
       let r := J.arr (sels.map (·.2))
       if truthyJ r then some (some r) else none
     | .relative =>
-      match patchAll sels [] with
+      match patchAllO sels [] with
       | none => some none
       | some kvs => let r := fix (.node kvs); if truthyJ r then some (some r) else none
     | .root =>
-      match patchAll (sels.map (fun (ps, v) => (matchParts ++ ps, v))) [] with
+      match patchAllO (sels.map (fun (ps, v) => (matchParts ++ ps, v))) [] with
       | none => some none
       | some kvs => let r := fix (.node kvs); if truthyJ r then some (some r) else none
 
@@ -146,6 +185,37 @@ def lookupJ : J → List Part → Option J
   | .arr xs, .idx n :: rest => if 0 ≤ n then (xs[n.toNat]?).bind (lookupJ · rest) else none
   | .obj kvs, .key k :: rest => (dictGet kvs k).bind (lookupJ · rest)
   | _, _ => none
+
+/-- follow parts through the intermediate object and on into a copied value: what is found at a location
+    that lies at or below a leaf (`none` when the location ends on an intermediate dict) -/
+def getDeep : T → List Part → Option J
+  | .leaf v, ps => lookupJ v ps
+  | .node _, [] => none
+  | .node kvs, p :: rest => (getT kvs p).bind (getDeep · rest)
+
+/-- the part that replaces `p` in the fixed value: its position `n` among the keys when the level is an
+    array (first key an index), its name otherwise -/
+def rankHead (kvs : List (Part × T)) (p : Part) (n : Nat) : Part :=
+  match kvs with
+  | (.idx _, _) :: _ => Part.idx n
+  | _ => Part.key (Pointer.partStr p)
+
+/-- `rankPath` continued into a copied value, where nothing is compacted -/
+def rankDeep : T → List Part → Option (List Part)
+  | .leaf _, ps => some ps
+  | .node _, [] => some []
+  | .node kvs, p :: rest =>
+    (getT kvs p).bind fun t => (keyPos kvs p).bind fun n => (rankDeep t rest).map (rankHead kvs p n :: ·)
+
+/-- the intermediate object is a pruning of the value `w`: every leaf holds the value `w` has at the leaf's
+    location, every dict level sits where `w` has a container with those members / elements -/
+def Sub : T → J → Prop
+  | .leaf v, w => v = w
+  | .node kvs, w => SubL kvs w
+where
+  SubL : List (Part × T) → J → Prop
+    | [], _ => True
+    | (p, t) :: rest, w => (∃ c, lookupJ w [p] = some c ∧ Sub t c) ∧ SubL rest w
 
 /-- no selected location is a prefix of (or equal to) another -/
 def Disjoint (sels : List (List Part)) : Prop :=
